@@ -21,4 +21,12 @@ CHECKS = {
         text="Every (N, index, bounds, t) tuple of the alphabet is run through Spectra.__call__ with the RNG owned by the harness; bounds (no tolerance), F_ref(logE)=u, monotonicity in u, normalisation product and mono exactness are checked at each point.",
         note="RNG owned through numpy's legacy global functions; reference CDF is independent (expm1 form); nothing is claimed between alphabet points",
     ),
+    "C07": dict(
+        engine="E1-lattice",
+        level="exploration",
+        design_ref="DESIGN.md §3 C07",
+        technique="bounded exhaustive enumeration: product of tau energies (incl. the exhaustively computed smallest reachable energy of every shipped table) x emergence angles x decay random numbers (closed-interval edges + grid) through EAS.altDec and Taus.__call__ (RNG owned), explicit-vector reference",
+        text="Every lattice point is executed on the real code; Lorentz factor, speed, shower energy, decay length (closed form and inverse-survival identity), decay altitude from explicit vectors, monotonicity along lattice lines and mid-point-quadrature convergence of the mean are checked at each.",
+        note="documented constants (R=6378.1 km, c, tau0, m_tau) are trusted; nothing is claimed between alphabet points; no limit is proved for the mean",
+    ),
 }
